@@ -19,7 +19,8 @@ RULE = (
 )
 ASSUMPTIONS = [
     "race control = the environment doing what BenchmarkCoordinator.on_task_finished / on_benchmark_complete do (metrics_store.bulk_add); in-memory store",
-    "transport / threads as in C01; a handler is preemptible by its executor thread only at sync points (future.done/exception, Sampler.samples)",
+    "transport / threads as in C01; at bound 1 a handler is preemptible by its executor thread at sync points (future.done/exception, "
+    "Sampler.samples); at bound 2 additionally before every line of the worker's handler code in esrally/driver/driver.py (sys.settrace)",
 ]
 
 HORIZON = 250.0
@@ -86,7 +87,8 @@ def configs(tier):
 
 
 def check_race(cfg, ch, res):
-    shape, lname, factor, qsize = cfg
+    shape, lname, factor, qsize = cfg[:4]
+    lp = len(cfg) > 4 and bool(cfg[4])  # line-level preemption of worker handlers by the executor thread
     schedule = SHAPES[shape]()
     hosts, cores = LAYOUTS[lname]
     extra = {}
@@ -94,7 +96,7 @@ def check_race(cfg, ch, res):
         extra[("reporting", "metrics.request.downsample.factor")] = factor
     if qsize:
         extra[("reporting", "sample.queue.size")] = qsize
-    r = racesim.run_race(schedule, hosts, cores, behaviour_for(shape), ch, horizon=HORIZON, cfg_extra=extra, store=True)
+    r = racesim.run_race(schedule, hosts, cores, behaviour_for(shape), ch, horizon=HORIZON, cfg_extra=extra, store=True, line_preempt=lp)
     names = [n for _t, n, _m in r.received]
     v = None
     docs = r.rc.store.docs if hasattr(r, "rc") and r.rc.store is not None else []
@@ -163,19 +165,21 @@ def check_race(cfg, ch, res):
             if missing:
                 v = ("no-throughput", f"no throughput record for tasks {sorted(set(missing))}")
     res.case(
-        case_repr={"shape": shape, "layout": lname, "downsample": factor, "queue_size": qsize, "choices": list(ch.choices)[:60], "requests": len(r.log),
+        case_repr={"shape": shape, "layout": lname, "downsample": factor, "queue_size": qsize, "line_preemption": lp, "choices": list(ch.choices)[:60], "requests": len(r.log),
                    "store_records": len(docs)}
         if res.sample_now(1009)
         else None,
         nontrivial_key=(cfg, tuple(ch.choices)) if any(ch.choices) else None,
         outcome_key=(shape, len(docs), len(r.log), v[0] if v else "ok", round(r.end_time, 2)),
     )
+    if lp and any(t[0] == "preempt" and t[1].startswith("line:") for t in r.sim.trace):
+        res.count("executions_with_a_line_level_preemption")
     res.states += r.steps
     if v:
         res.violation(
             f"samples:{v[0]}:{shape}" + (":downsampled" if factor != 1 else "") + (":small-queue" if qsize else ""),
             f"{shape} layout={lname} downsample={factor} queue={qsize} deviations={ch.deviations} choices={[(i, c) for i, c in enumerate(ch.choices) if c]}: {v[1]}",
-            {"cfg": [shape, lname, factor, qsize], "choices": list(ch.choices)},
+            {"cfg": list(cfg), "choices": list(ch.choices)},
         )
     return r
 
@@ -204,6 +208,8 @@ def run(tier, seed):
     deep = [c for c in cfgs if c[0] in ("S9", "S12") and c[2] == 1 and c[3] is None and c[1] == "1x1"]
     if tier == "thorough":
         deep = [c for c in cfgs if c[0] in ("S9", "S12", "S13", "S5b", "S2") and c[2] == 1 and c[3] is None]
+    # at bound 2 every line of a worker handler (esrally/driver/driver.py) is a preemption point for an executor step due at that instant
+    deep = [tuple(c) + (True,) for c in deep]
     r2 = explore.explore_parallel(check_race, deep, 2, seed=seed, max_exec_per_subtree=150 if tier == "quick" else 40000)
     res.merge(r2)
     differential(res)
@@ -219,5 +225,5 @@ def replay(data):
     if data.get("differential"):
         differential(res)
     else:
-        check_race((c[0], c[1], c[2], c[3]), explore.Chooser(tuple(data["choices"])), res)
+        check_race(tuple(c), explore.Chooser(tuple(data["choices"])), res)
     return [v for lst in res.violations.values() for v in lst]
